@@ -82,7 +82,8 @@ func Multiplication(left, right value.Value) error {
 			lv.Value *= time.Duration(rv.Value)
 		case value.FloatType: // RTIME *= FLOAT
 			rv := value.Unwrap[*value.Float](right)
-			lv.Value *= time.Duration(rv.Value)
+			// scale by the factor, not by the factor truncated to INTEGER
+			lv.Value = time.Duration(float64(lv.Value) * rv.Value)
 		default:
 			return errors.WithStack(fmt.Errorf("invalid multiplication RTIME type, got %s", right.Type()))
 		}
